@@ -1299,7 +1299,7 @@ impl<'a> Exec<'a> {
             return rej("credential identifier differs from registration", false);
         }
         if r.ksf != ksf_effective(ksf, self.s.ksf_family()) {
-            return rej("key-stretching parameters differ from registration", true);
+            return rej("key-stretching parameters differ from registration", false);
         }
         if r.server_pk_seen != ss.pk {
             return rej("server static key differs from the one sealed at registration", false);
